@@ -402,6 +402,11 @@ class IdealPublicKey:
 
 class StubBase58:
     @staticmethod
+    def decode_check(address):
+        """Base58Check: the payload without its four checksum bytes."""
+        return b'\x55' + address[1]
+
+    @staticmethod
     def decode(address):
         """Base58.decode of an address: version byte, hash160, four checksum bytes (the codec itself is C06)."""
         return b'\x55' + address[1] + b'\x01\x02\x03\x04'
